@@ -922,6 +922,7 @@ def main():
     # the tie of the theorems of props/C17.v: the real patch.patch() against model/PcPatch.v on generated member records
     import patchcorr
     patchcorr.run(chk, 600 if chk.tier == 'quick' else 6000)
+    patchcorr.run_isar(chk, 600 if chk.tier == 'quick' else 6000)
     return chk.finish(level="proof")
 
 
